@@ -246,7 +246,7 @@ def big_values(r, quick):
         out.append((A([S(bytes([97 + i % 26]) * (i % 7)) for i in range(n)]), wide_cfg[:4]))
         out.append((O([(b"k%05d" % i, r.choice([NULL, I(i), S(b"v"), A([])])) for i in range(n)]), wide_cfg[:5]))
     # wide and deep at once: the flush threshold is crossed at many different places of nested indentation
-    for _ in range(6 if quick else 40):
+    for _ in range(6 if quick else 100):
         n, d = r.randrange(150, 700), r.randrange(2, 9)
         inner = nest(d, r.choice(["arr", "mix", "arr2"]), I(7))
         out.append((A([inner if i % r.randrange(2, 6) else S(rand_string(r)) for i in range(n)]),
@@ -286,7 +286,7 @@ def yaml_values(r, quick):
     for i in range(0, len(nums), 40):
         out.append([A(nums[i:i + 40])])
     out.append([NULL, B(True), B(False), A([]), O([]), A([A([]), O([])]), O([(b"", A([NULL]))]), S(b""), A([NULL, B(True)])])
-    for _ in range(40 if quick else 600):
+    for _ in range(40 if quick else 2000):
         out.append([rand_yaml_value(r, 3) for _ in range(r.randrange(1, 4))])
     big = [[I(2 ** 63)], [A([I(-2 ** 63 - 1), I(10 ** 30)])], [O([(b"a", I(2 ** 64))])]]
     return out, big
@@ -612,12 +612,12 @@ def run(tier, seed, replay):
 
         # 2. seeded random strings and values
         cases = []
-        for _ in range(260 if quick else 6000):
+        for _ in range(260 if quick else 14000):
             vs = [S(rand_string(r)) for _ in range(3)] + [rand_value(r, r.choice([1, 2, 3, 4])) for _ in range(3)]
             cfgs = r.sample(base, 3 if quick else 5) + colour_cfgs(r, 1) + ([{"raw": r.choice(["r", "j"]), **r.choice(base)}] if r.random() < 0.2 else [])
             cases.append({"vs": vs, "lib": True, "cli": cfgs, "dbg": r.random() < 0.05})
         # 3. float64 bit-pattern classes
-        fl = float_classes(r, 150 if quick else 6000)
+        fl = float_classes(r, 150 if quick else 20000)
         rep.cov["float_patterns"] = len(fl)
         for i in range(0, len(fl), 12):
             cases.append({"vs": fl[i:i + 12], "lib": True, "cli": [{"c": True}, r.choice(base), {"C": True}]})
